@@ -71,7 +71,11 @@ def gen_sarif_doc(rng, uid, own_tool):
             if own_tool == "codeql" and rng.random() < 0.2:
                 region.pop("endLine")
                 region.pop("endColumn")
+            if own_tool == "codeql" and rng.random() < 0.1:
+                region = None  # a result for the whole file
             res = {"message": {"text": f"m{uid[0]}"}, "locations": [{"physicalLocation": {"artifactLocation": {"uri": rng.choice(FILES)}, "region": region}}]}
+            if region is None:
+                del res["locations"][0]["physicalLocation"]["region"]
             if tool != "foreign" and rng.random() < 0.25:
                 res["rule"] = {"toolComponent": {"index": 0}, "index": SARIF_RULES.index(rid)}
             else:
